@@ -100,6 +100,13 @@ def main(argv):
             if rc != 0:
                 broken.append({'kind': 'coqchk', 'name': prop_file, 'detail': out[-600:]})
 
+    # 3b: the static half of the tie: the text of the hand-modelled source files (tools/source_tie.py)
+    import source_tie
+    for f, name, how in source_tie.changed(prop):
+        broken.append({'kind': 'source-tie', 'name': f'{f}: {name}',
+                       'detail': f'{how}: the text of {name} in {f} is not the text the model of {prop} was written and validated '
+                                 f'against (source_digests.json); the property is no longer shown to hold for this code'})
+
     # 4: correspondence + oracle
     model = None
     try:
